@@ -137,10 +137,14 @@ def plan():
     add("we", "t1", ["a", "b"], 2, "quick")
     # thorough
     add("we", "t1", ["", "a", "b", ":", D], 2, "thorough")
-    add("mi", "t1", ["a", D], 2, "thorough")
-    add("me", "t1", ["", "a"], 2, "thorough")
+    T1 = CONFIGS["t1"]["T"]
+    for kind in ("mi", "me"):
+        for tup in (("a", D), ("", "a")):
+            it = tuple(None if x is None else T1.index(x) for x in tup)
+            seen.add((kind, "t1", it))
+            out.append((kind, "t1", it, "thorough"))
     add("we", "t1", ["a", D], 3, "thorough")
-    add("we", "t2", ["", "a", "aa", "ab", D], 2, "thorough")
+    add("we", "t2", ["a", "aa", "ab", D], 2, "thorough")
     add("we", "tp", ["a", "a::", "a::b", D], 2, "thorough")
     return out
 
